@@ -27,19 +27,21 @@ def multi_port_designs():
     for nports in (2, 3, 4):
         ports = [f"b{k}" for k in range(nports)]
         cb = U.mod([], [x for p in ports for x in U.bprobes(p, U.B1_LEAVES)], [U.bnd(p, "B1", port=True) for p in ports], probes=False)
-        for variant in ("same", "refs", "mixed"):
+        for variant in ("same", "refs", "mixed", "subref"):
             conns = []
             for k, p in enumerate(ports):
                 if variant == "same":
                     t = Bund("b")
                 elif variant == "refs":
                     t = Bund("b") if k == 0 else Pref("i", ports[0])
+                elif variant == "subref":
+                    t = Bref("n2", "sub")          # ONE reference to a sub-bundle of a nested bundle, feeding several ports
                 else:
                     t = Bund("b") if k % 2 == 0 else Anon(x=Bref("b", "x"), y=Bref("c", "y"))
                 conns.append((p, t))
             insts = [U.inst("i", "CBM", conns), U.inst("j", "CBM", list(reversed(conns)))]
-            top = U.mod([U.sig("s")], insts + U.bprobes("b", U.B1_LEAVES), [U.bnd("b", "B1"), U.bnd("c", "B1")], probes=False)
-            out.append(("multi_port", U.design({"CBM": cb, "Top": top}, bundles=bundles)))
+            top = U.mod([U.sig("s")], insts + U.bprobes("b", U.B1_LEAVES), [U.bnd("b", "B1"), U.bnd("c", "B1"), U.bnd("n2", "B2")], probes=False)
+            out.append(("multi_port", U.design({"CBM": cb, "Top": top}, bundles=dict(bundles, B2=U.B2))))
     return out
 
 
